@@ -288,11 +288,15 @@ LABELS = [
     ("rev-str", lambda c: "zyxwvutsrqpon"[c]),
     ("int", lambda c: c),
     ("shifted-int", lambda c: 100 - 7 * c),
+    # labels that collide under str(): the int k and the string "k" are different categories (object arrays)
+    ("int-vs-digit-string", lambda c: (c // 2) if c % 2 == 0 else str(c // 2)),
 ]
 
 
 def cat_arrays(a, b_, lab):
     f = dict(LABELS)[lab]
+    if lab == "int-vs-digit-string":
+        return np.array([f(c) for c in a], dtype=object), np.array([f(c) for c in b_], dtype=object)
     return np.array([f(c) for c in a]), np.array([f(c) for c in b_])
 
 
@@ -592,6 +596,13 @@ def run(ck: Check):
             grid += [(n, m, h) for h in hs]
     extra = [(rng.randrange(2, 41), rng.randrange(2, 41)) for _ in range(40 if not thorough else 300)]
     grid += [(n, m, rng.randrange(1, n * m + 1)) for n, m in extra]
+    # unequal sizes whose effective size n*m/(n+m) is an INTEGER (the parity tests of the finite-N formula decide on it;
+    # computed as 1/(1/n + 1/m) it lands an ulp off), with large statistics
+    integral = [(n, m) for n in range(2, 61) for m in range(n + 1, 61) if (n * m) % (n + m) == 0]
+    for n, m in (integral if thorough else rng.sample(integral, min(14, len(integral))) + [(10, 15), (20, 30)]):
+        for h in {(2 * n * m) // 3, (3 * n * m) // 4, n * m - 1, n * m // 2 + 1}:
+            grid.append((n, m, h))
+            grid.append((m, n, h))
     for n, m, h in grid:
         D = np.float64(h / (n * m))
         N = n * m / float(n + m)
@@ -656,6 +667,22 @@ def run(ck: Check):
             ck.count("history:self-batch")
             if not same_res(own, perm) or not same_res(own, oracle):
                 ck.violation(dict(clause="self-batch", detector=W[w]["cls"]), dict(what="compare(batch equal to the reference) differs from the named test on (reference, reference) / from a permutation of the same batch", detector=W[w]["cls"], B=jl(B_), kw=kw, got=[jl(x) for x in own[1:]], permuted=[jl(x) for x in perm[1:]], direct=[jl(x) for x in oracle[1:]]))
+
+    # ---------------- an INTEGER reference with a fractional float batch (and the reverse): the named test on the VALUES
+    for hi in range(6 if not thorough else 30):
+        for w in NUMERIC:
+            ai = np.array([rng.randrange(-6, 12) for _ in range(rng.choice([7, 12]))], dtype=rng.choice([np.int64, np.int32]))
+            yf = np.array([rng.randrange(-24, 48) / 4 + 0.125 for _ in range(rng.choice([6, 9]))])
+            for ref, test, what in ((ai, yf, "int reference, float batch"), (yf, ai, "float reference, int batch")):
+                if pooled_constant(ref.astype(float), test.astype(float)):
+                    continue
+                kw = {"method": "exact"} if w == "BWS" else {}
+                got = run_wrapper(w, ref, test, kw, seed=hi)
+                want = run_wrapper(w, ref.astype(float), test.astype(float), kw, seed=hi)
+                ck.case(dict(detector=W[w]["cls"], kind="mixed-dtypes", what=what), nontrivial=got[0] == "ok", key=repr(("mixed", w, hi, what, ref.tolist(), test.tolist())))
+                ck.count("mixed_dtype_pairs")
+                if not same_res(got, want):
+                    ck.violation(dict(clause="dtype", detector=W[w]["cls"]), dict(what="result for an integer-typed sample against a float-typed one differs from the result on the same values as floats", detector=W[w]["cls"], case=what, ref=jl(ref), test=jl(test), got=[jl(x) for x in got[1:]], as_floats=[jl(x) for x in want[1:]]))
 
     # ---------------- chi-square
     CT = det_cls("Chi")
